@@ -440,6 +440,7 @@ func c17Gen(g *G) {
 	// (MakeRequest against scripted peers)
 	c17TwoGen(g, code)
 	c17MigGen(g, code)
+	c17CallGen(g, code)
 	rows := append([]c17Row{}, c17F.Rows...)
 	// the specification's families too, so that a row removed from the source is still exercised
 	for _, r := range c17SpecRows {
@@ -721,7 +722,8 @@ func c17Judge(op []string, out string) string {
 	if len(op) < 2 {
 		return ""
 	}
-	if (op[0] == "c17.req" && len(op) == 4) || ((op[0] == "c17.req2" || op[0] == "c17.two") && len(op) == 6) {
+	if (op[0] == "c17.req" && len(op) == 4) || ((op[0] == "c17.req2" || op[0] == "c17.two" || op[0] == "c17.call") && len(op) == 6) ||
+		(op[0] == "c17.home" && len(op) == 3) {
 		return c17MigJudge(op, out)
 	}
 	if op[0] == "c17.atoi" || op[0] == "c17.sprintf" {
